@@ -155,7 +155,7 @@ def ty_productions(prog, t, pos, out):
         out["%s:%s<%s>" % (pos, "Option" if t[2] == "std" else "DiplomatOption", t[1][0])] += 1
         ty_productions(prog, t[1], pos + ":optpayload", out)
     elif k == "slice":
-        out["%s:%sslice%s" % (pos, "&mut " if t[2] else "&", ":static" if t[3] == "static" else "")] += 1
+        out["%s:%sslice:%s%s" % (pos, "&mut " if t[2] else "&", t[1], ":static" if t[3] == "static" else "")] += 1
     elif k == "oslice":
         out[pos + ":Box<[T]>"] += 1
     elif k == "str":
